@@ -16,6 +16,9 @@ pub enum KeyKind {
     /// array keys whose elements are lazy computations that themselves sort (forced for the
     /// first time in the middle of the outer sort's comparisons)
     Nested,
+    /// number keys where the smallest key is written `0` at even and `-0` at odd positions
+    /// (equal keys with different representations)
+    ZeroMix,
 }
 
 /// key index 0..=2 -> source text; order of the texts is the order of the indexes
@@ -30,6 +33,9 @@ fn key_src(kind: KeyKind, k: u8) -> &'static str {
         (KeyKind::Arr, 0) => "[]",
         (KeyKind::Arr, 1) => "[1]",
         (KeyKind::Arr, _) => "[1, 0]",
+        (KeyKind::ZeroMix, 0) => "0",
+        (KeyKind::ZeroMix, 1) => "1",
+        (KeyKind::ZeroMix, _) => "2.5",
         (KeyKind::Nested, 0) => "[std.length(std.set([5, 5, 5]))]",
         (KeyKind::Nested, 1) => "[std.sort([3, 1, 2])[0], std.length(std.uniq(std.sort([7, 7]))) - 1]",
         (KeyKind::Nested, _) => "[std.length(std.set([2, 1, 2], keyF=function(x) [x]))]",
@@ -37,7 +43,7 @@ fn key_src(kind: KeyKind, k: u8) -> &'static str {
 }
 
 fn arr_src(kind: KeyKind, keys: &[u8]) -> String {
-    let items: Vec<String> = keys.iter().enumerate().map(|(i, k)| format!("[{}, {i}]", key_src(kind, *k))).collect();
+    let items: Vec<String> = keys.iter().enumerate().map(|(i, k)| format!("[{}, {i}]", if kind == KeyKind::ZeroMix && *k == 0 && i % 2 == 1 { "-0" } else { key_src(kind, *k) })).collect();
     format!("[{}]", items.join(", "))
 }
 
@@ -168,7 +174,7 @@ fn short_sweep(sh: &util::Shard, maxlen: usize) -> Report {
                 return;
             }
             let keys: Vec<u8> = seq.iter().map(|&k| k as u8).collect();
-            for kind in [KeyKind::Num, KeyKind::Str, KeyKind::Arr, KeyKind::Nested] {
+            for kind in [KeyKind::Num, KeyKind::Str, KeyKind::Arr, KeyKind::Nested, KeyKind::ZeroMix] {
                 check_array(&mut p, kind, &keys, &mut rep, "array");
             }
             rep.states += 1;
@@ -191,7 +197,7 @@ fn long_sweep(sh: &util::Shard, lengths: &[usize], pair_lengths: &[usize]) -> Re
             continue;
         }
         for (pname, base) in base_patterns(n) {
-            let kind = [KeyKind::Num, KeyKind::Str, KeyKind::Arr, KeyKind::Nested][(n + pname.len()) % 4];
+            let kind = [KeyKind::Num, KeyKind::Str, KeyKind::Arr, KeyKind::Nested, KeyKind::ZeroMix][(n + pname.len()) % 5];
             check_array(&mut p, kind, &base, &mut rep, pname);
             rep.states += 1;
             // every single deviation
@@ -236,8 +242,8 @@ fn long_sweep(sh: &util::Shard, lengths: &[usize], pair_lengths: &[usize]) -> Re
 }
 
 fn set_src(kind: KeyKind, mask: u32, side: u32, universe: &[&str]) -> String {
-    let _ = kind;
-    let items: Vec<String> = (0..universe.len()).filter(|i| mask & (1 << i) != 0).map(|i| format!("[{}, {side}]", universe[i])).collect();
+    // (zero-mix universe: the left set writes the zero key as -0, the right one as 0)
+    let items: Vec<String> = (0..universe.len()).filter(|i| mask & (1 << i) != 0).map(|i| format!("[{}, {side}]", if kind == KeyKind::ZeroMix && universe[i] == "-0" && side == 1 { "0" } else { universe[i] })).collect();
     format!("[{}]", items.join(", "))
 }
 
@@ -249,6 +255,7 @@ fn set_algebra(sh: &util::Shard) -> Report {
         (KeyKind::Num, vec!["-2", "-0.5", "0", "1", "2.5", "1e9"], None),
         (KeyKind::Str, vec!["\"\"", "\"A\"", "\"a\"", "\"ab\"", "\"b\"", "\"é\""], None),
         (KeyKind::Arr, vec!["[]", "[0]", "[0, 0]", "[0, 1]", "[1]", "[1, 0]"], None),
+        (KeyKind::ZeroMix, vec!["-1", "-0", "1", "2", "3", "4"], Some(vec!["-1", "0", "1", "2", "3", "4"])),
         (KeyKind::Nested, vec!["[std.length(std.set([5, 5]))]", "[std.sort([2, 1])[0], 0]", "[std.sort([2, 1])[0], 1]", "[2]", "[std.length(std.set([1, 2])), 0]", "[3]"], Some(vec!["[1]", "[1,0]", "[1,1]", "[2]", "[2,0]", "[3]"])),
     ];
     for (kind, uni, uni_json) in &universes {
@@ -372,7 +379,7 @@ pub fn replay(v: &serde_json::Value) -> i32 {
     let c = &v["case"];
     if c["type"] == "sort" {
         let keys: Vec<u8> = c["keys"].as_array().unwrap().iter().map(|x| x.as_u64().unwrap() as u8).collect();
-        let kind = match c["kind"].as_str().unwrap_or("") { "Num" => KeyKind::Num, "Str" => KeyKind::Str, "Nested" => KeyKind::Nested, _ => KeyKind::Arr };
+        let kind = match c["kind"].as_str().unwrap_or("") { "Num" => KeyKind::Num, "Str" => KeyKind::Str, "Nested" => KeyKind::Nested, "ZeroMix" => KeyKind::ZeroMix, _ => KeyKind::Arr };
         let arena = Arena::new();
         let mut p = Program::new(&arena);
         let mut rep = Report::new();
